@@ -41,7 +41,7 @@ def directed(rng: random.Random) -> dict:
     kind = rng.choice(["capture_eager", "capture_deferred", "forward_label", "local_labels", "recursion", "code_block", "undefined_macro",
                        "too_few", "nested", "zero_params", "shadow_outer", "arg_uses_later_param", "param_shadows_global_unsized",
                        "mixed_immediate_and_deferred", "splice_in_nested_scope", "undefined_macro_nested", "macro_and_scope_same_name",
-                       "argument_names_later_nearer_label", "named_scope_in_body"])
+                       "argument_names_later_nearer_label", "named_scope_in_body", "many_applications", "block_declares_name_used_by_body", "block_expanded_several_times"])
     expect_reject = False
     if kind == "capture_eager":
         body += [{"k": "macro", "n": "macA", "ps": ["pa", "pb"], "b": [db(E("pa"), E("pb"))]},
@@ -82,6 +82,39 @@ def directed(rng: random.Random) -> dict:
                  {"k": "block", "b": [{"k": "call", "n": "ptrm", "as": [E("done")]}, db(1, 2), {"k": "label", "n": "done"}, db(3), {"k": "call", "n": "ptrm", "as": [E("done")]}]},
                  {"k": "call", "n": "recm", "as": [E(4)]}, {"k": "call", "n": "ptrm", "as": [E("done")]}, {"k": "call", "n": "ptrm", "as": [E("skip", "+", 1)]},
                  {"k": "scope", "n": "nsq", "b": [{"k": "call", "n": "ptrm", "as": [E("done")]}, {"k": "label", "n": "done"}, db(5)]}]
+    elif kind == "many_applications":
+        # applications are independent of how many came before: a table written entry by entry, a macro used inside a long loop
+        n = rng.choice([257, 300, 600])
+        body += [{"k": "macro", "n": "entrym", "ps": ["pi", "pv"], "b": [db(E("pi", "&", 0xFF)), {"k": "data", "d": "dw", "es": [E("pv")]}]}]
+        if rng.random() < 0.5:
+            body += [{"k": "call", "n": "entrym", "as": [E(i), E(i * 7)]} for i in range(n)]
+        else:
+            body += [{"k": "for", "v": "itA", "a": E(0), "b": E(n), "body": [{"k": "call", "n": "entrym", "as": [E("itA"), E("itA", "*", 3)]}]}]
+        body += [{"k": "macro", "n": "countm", "ps": ["pn"], "b": [db(E("pn")), {"k": "if", "c": E("pn"), "t": [{"k": "call", "n": "countm", "as": [E("pn", "-", 1)]}]}]},
+                 {"k": "call", "n": "countm", "as": [E(5)]}, {"k": "call", "n": "entrym", "as": [E(1), E("tail")]}, {"k": "label", "n": "tail"}, db(0xEE)]
+    elif kind == "block_declares_name_used_by_body":
+        # the code block is expanded where the parameter is spliced, inside the application: what it declares is visible to the rest of the body
+        blk = {"blk": [{"k": "label", "n": "entry"}, {"k": "ins", "m": "nop", "shape": "imp", "sz": "", "e": None}, db(0x55)]}
+        body += [{"k": "macro", "n": "handler", "ps": ["pid", "pcode"], "b": [db(E("pid")), {"k": "data", "d": "dw", "es": [E("entry")]}, {"k": "splice", "n": "pcode"},
+                                                                          {"k": "data", "d": "dw", "es": [E("entry")]}]}]
+        if rng.random() < 0.5:
+            body += [{"k": "label", "n": "entry"}, db(0x99)]
+        body += [{"k": "call", "n": "handler", "as": [E(1), blk]}, {"k": "call", "n": "handler", "as": [E(2), blk]}]
+        if rng.random() < 0.5:
+            blk2 = {"blk": [{"k": "assign", "n": "kset", "e": E(7)}, db(E("kset"))]}
+            body += [{"k": "macro", "n": "usesk", "ps": ["pcode"], "b": [{"k": "splice", "n": "pcode"}, db(E("kset", "+", 1))]}, {"k": "call", "n": "usesk", "as": [blk2]}]
+    elif kind == "block_expanded_several_times":
+        # one code block, expanded by several applications and several times by one application (a repeat macro); the block applies macros,
+        # opens scopes and defines labels, all of which belong to the place where it is spliced
+        nop = {"k": "ins", "m": "nop", "shape": "imp", "sz": "", "e": None}
+        blk = {"blk": [{"k": "call", "n": "putm", "as": [E(0x11)]}, nop, {"k": "block", "b": [{"k": "label", "n": "inb"}, {"k": "data", "d": "dw", "es": [E("inb")]}]}]}
+        body += [{"k": "macro", "n": "putm", "ps": ["pv"], "b": [db(E("pv"))]},
+                 {"k": "macro", "n": "framed", "ps": ["pcode"], "b": [db(2), {"k": "splice", "n": "pcode"}, db(3)]},
+                 {"k": "macro", "n": "repeatm", "ps": ["pn", "pbody"], "b": [{"k": "for", "v": "itR", "a": E(0), "b": E("pn"), "body": [{"k": "splice", "n": "pbody"}]}]},
+                 {"k": "macro", "n": "twice", "ps": ["pbody"], "b": [{"k": "splice", "n": "pbody"}, db(0x7E), {"k": "splice", "n": "pbody"}]}]
+        body += rng.choice([[{"k": "call", "n": "repeatm", "as": [E(3), blk]}], [{"k": "call", "n": "framed", "as": [blk]}, {"k": "call", "n": "framed", "as": [blk]}],
+                            [{"k": "call", "n": "twice", "as": [blk]}], [{"k": "for", "v": "itO", "a": E(0), "b": E(2), "body": [{"k": "call", "n": "framed", "as": [blk]}]}]])
+        body += [db(0xEE)]
     elif kind == "named_scope_in_body":
         # a named scope inside the body belongs to one application: its qualified names are local to it
         body += [{"k": "macro", "n": "entry", "ps": ["pv"], "b": [{"k": "data", "d": "dw", "es": [E("record.payload")]},
